@@ -41,11 +41,11 @@ CLAIMS = {
         'reachable state under every op list (puts with growth, removals, clear, free, callback iteration with removals, iterator set/remove); '
         'get/contains answer for exactly the live entries; put stores a new key / replaces a value / fails without effect; remove deletes '
         'exactly the named entry (back-shift correctness); rehash keeps exactly the entries; len = number of distinct live keys; callback '
-        'iteration and the iterator object, without mutation, visit every live entry exactly once; clear leaves an empty map. The clause "iteration with removal visits every live entry exactly '
+        'iteration and the iterator object, without mutation, visit every live entry exactly once; clear leaves an empty map and the destructor log of clear / free releases every live entry exactly once and nothing else. The clause "iteration with removal visits every live entry exactly '
         'once" is REFUTED on the model by a computed witness (C05_iterate_with_removal_refuted) = known finding D12 on the code. Tie: the '
         'extracted model runs against the real map on adversarial key pools chosen with the real hash (same home slot, last slots, '
         'consecutive homes, clusters > size/2, growth) + an independent monitor of the iteration clause.',
-   note=NOTE_COMMON + 'Not proved: the destructor log of clear/free (which values, in which order); iteration WITH mutation other than the refuted clause '
+   note=NOTE_COMMON + 'Not proved: iteration WITH mutation other than the refuted clause '
         '(iterator set/remove are covered by invariant preservation only); allocation failure is not modelled '
         '(rehash "revert" = the probe-window failure path). Known finding D12 is listed in known_findings.txt.',
    technique='Coq proof (representation invariant by induction over op lists, refinement to the finite map represented, for every hash function) tied by extracted-model differential testing',
@@ -70,21 +70,21 @@ CLAIMS['C06'] = dict(
    technique='Coq proof (conservation invariant + inductive safety invariant over arbitrary schedules) tied by deterministic-scheduler differential testing',
    design='7/C06')
 CORE_TEXT = {
- 'C01': 'GLOBAL (every script, every callback behaviour, from any world on): a registered module never returns to IDLE and ZOMBIE is final (lifecycle_monotone, via the generic invariant theorem of CoreInv.v whose obligations are the edges themselves); the state sets of the guards are the M_MOD_ASSERT_STATE arguments read from the C source (Guards.v); guards of every state-changing call refuse without effect (any wrong state, zombies, no context); plus per-run monitors: no handler for a non-RUNNING module, reported running count = RUNNING modules',
- 'C02': 'copies: ineligible modules get nothing, eligible ones exactly one copy appended at the tail of their pipe carrying sender/topic/payload, full pipe drops the copy, capacity >= 8192, direct tell reaches the addressee only; per-run monitors: at-most-once, send order, auto-free exactly once',
- 'C03': 'errno non-interference of event reception, dispatch case analysis, quit code recorded and returned, ready set sound and bounded by max_events, event userdata = source userdata',
- 'C04': 'ref-counted heap discipline of the model (ref/unref steps, destructor once at zero, use of freed objects flagged); the property itself is judged per run by ASan/UBSan and the allocator census (partial by nature); known finding D10 (task thread outliving its source) is listed in known_findings.txt and reproduced by a corpus case',
- 'C07': 'the context-guarded calls are exactly the C functions containing M_CTX_ASSERT (Guards.v, regenerated); second context refused with EEXIST, every context call / registration without context refused with EPIPE, module operations refused with EPERM, looping or zombie context refuses deregistration, finalized context refuses registration',
- 'C08': 'copies are appended at the pipe tail, events are appended to the batch in arrival order and handed over in that order; per-run monitor of per-recipient send order incl. pills',
- 'C09': 'priority bits are validated by exactly the subscription / source-registration functions (M_SRC_ASSERT_PRIO_FLAGS, Guards.v regenerated); registry steps: present key -> EEXIST, absent -> added, bad priority -> EINVAL without token, deregister present removes exactly that entry, absent -> error without effect, tasks cannot be deregistered',
+ 'C01': 'a pass over the module table visits every module exactly once whatever the callbacks answer (while the table is unchanged), the evaluation step starts an IDLE module without / with an approving evaluation callback, pause and resume move the running counter by exactly one; GLOBAL (every script, every callback behaviour, from any world on): a registered module never returns to IDLE and ZOMBIE is final (lifecycle_monotone, via the generic invariant theorem of CoreInv.v whose obligations are the edges themselves); the state sets of the guards are the M_MOD_ASSERT_STATE arguments read from the C source (Guards.v); guards of every state-changing call refuse without effect (any wrong state, zombies, no context); plus per-run monitors: no handler for a non-RUNNING module, reported running count = RUNNING modules',
+ 'C02': 'ONE WHOLE SEND, every world: a broadcast appends exactly one copy per table entry at the tail of the pipe of every RUNNING/PAUSED module (while there is room) and changes no other pipe; a publish does so for exactly the RUNNING/PAUSED modules with a matching subscription; a direct tell changes no other pipe; copies: ineligible modules get nothing, eligible ones exactly one copy appended at the tail of their pipe carrying sender/topic/payload, full pipe drops the copy, capacity >= 8192, direct tell reaches the addressee only; per-run monitors: at-most-once, send order, auto-free exactly once',
+ 'C03': 'the blocking loop returns only on quit / no RUNNING module / no context; GLOBAL: what identifies a source (object, kind, key, flags, owner) never changes; errno non-interference of event reception, dispatch case analysis, quit code recorded and returned, ready set sound and bounded by max_events, event userdata = source userdata',
+ 'C04': 'GLOBAL on the core object heap: an object keeps kind and tag and once its count reached zero it stays zero (nothing resurrected, nothing destroyed twice); ref-counted heap discipline of the model (ref/unref steps, destructor once at zero, use of freed objects flagged); the property itself is judged per run by ASan/UBSan and the allocator census (partial by nature); known finding D10 (task thread outliving its source) is listed in known_findings.txt and reproduced by a corpus case',
+ 'C07': 'deregistering an idle context leaves the thread without context; a table pass reaches every module; the context-guarded calls are exactly the C functions containing M_CTX_ASSERT (Guards.v, regenerated); second context refused with EEXIST, every context call / registration without context refused with EPIPE, module operations refused with EPERM, looping or zombie context refuses deregistration, finalized context refuses registration',
+ 'C08': 'per send the copies go to the tail of every recipient pipe, reception takes the head of the pipe; copies are appended at the pipe tail, events are appended to the batch in arrival order and handed over in that order; per-run monitor of per-recipient send order incl. pills',
+ 'C09': 'stopping empties the registry (after drop_sources the module lists no source, none of those it held is polled, polling is never switched on by the way); GLOBAL: source keys never change; priority bits are validated by exactly the subscription / source-registration functions (M_SRC_ASSERT_PRIO_FLAGS, Guards.v regenerated); registry steps: present key -> EEXIST, absent -> added, bad priority -> EINVAL without token, deregister present removes exactly that entry, absent -> error without effect, tasks cannot be deregistered',
  'C13': 'the flush decision as a function of priority, batch size and accumulated count (high: always, low: never, normal: count >= size, size 0: at once), batch timer hands over everything accumulated',
  'C14': 'thread confinement: a thread holding another context or none fails M_MOD_ASSERT with EPERM; whenever that assertion fails EVERY module operation / pub-sub call is refused with a negative code and no effect; a foreign call leaves the owner thread context untouched; a message cannot be addressed to a module of another context. Independence: coq/Globals.v (every library symbol in a writable section with its writers, REGENERATED from the tree by nm + a source scan on every run) satisfies the policy of coq/GlobalsModel.v, hence no two accesses of different context threads to one global race (happens-before model by phases: ELF constructor, pthread_once, documented configuration step). Further engines of this check: foreign-thread calls are really made by another pthread in the differential driver (also while the owner is inside the module callback); 2..16 contexts loop concurrently under ThreadSanitizer and each context observation is compared with the same program run alone',
  'C15': 'GLOBAL: name and flags (replace, persist, deny-ctx/pub/sub, hooks) of a registered module never change (lifecycle_monotone); the deny-guarded calls are the C functions containing M_MOD_ASSERT_PERM (Guards.v, regenerated); live name without allow-replace -> EEXIST, deny-pub / deny-sub calls refused, deny-ctx hides the context during the callbacks of the module, reserved topic prefix refused, persistent module not deregistrable while looping',
  'C16': 'GLOBAL: in every reachable world a module that is not RUNNING/PAUSED has an empty stash (stack_and_stash_empty_unless_active); unstash(n) hands over exactly firstn n of the stash in one invocation and returns that number, stash appends, high priority events refused, both refused unless RUNNING',
  'C17': 'GLOBAL: in every reachable world a module that is not RUNNING/PAUSED has an empty handler stack, i.e. every stop clears it, for every script and callback behaviour (stack_and_stash_empty_unless_active); become pushes, unbecome pops the top or fails on the empty stack, every invocation runs hd(stack) fixed before the body starts, no empty invocation, both refused unless RUNNING',
  'C18': 'GLOBAL: in every reachable world every bucket is well formed and holds at most its burst (tokens_never_exceed_burst); which calls consume a token is READ FROM THE C SOURCE (Guards.v): every call whose function contains M_MOD_CONSUME_TOKEN is refused without effect on an empty bucket (out_of_tokens_refused), the set is pinned (token_guarded_calls) and the token is taken after every other check (token_is_consumed_last); token consumption step (unlimited / refused at 0 / decrement) and the bucket bound for EVERY sequence of consumes and refills: successes <= tokens + refills <= burst + refills',
- 'C19': 'shape of a system notification (system flag, no payload, named sender), pause and resume notify exactly once after the state change',
- 'C20': 'what each destructor closes: poll handle with the context, user descriptors only with auto-close, internal descriptors when polling stops (idempotent)',
+ 'C19': 'one notification reaches exactly the RUNNING/PAUSED modules subscribed to its topic, one copy each, system-flagged, payload-less, naming its module; shape of a system notification (system flag, no payload, named sender), pause and resume notify exactly once after the state change',
+ 'C20': 'after drop_sources none of the sources of the module is polled (their internal descriptors are closed); what each destructor closes: poll handle with the context, user descriptors only with auto-close, internal descriptors when polling stops (idempotent)',
 }
 NOTE_EXTRA = {
  'C14': ' C14 specifically: the race-freedom theorem is about an inventory produced by a syntactic translator (nm for the symbols, a regular-expression scan for '
@@ -99,7 +99,7 @@ for _p, _t in CORE_TEXT.items():
              '. Tie: the extracted model runs the same scripted, re-entrant programs as the real library (ASan/UBSan build, canonical epoll '
              'order, scripted environment); full traces must agree; a property-level projection decides whether a difference is a violation.',
         note=NOTE_COMMON + 'Core model = hand-written statement-order transliteration of ctx.c/mod.c/ps.c/src.c/evts.c/epoll.c (coq/CoreModel.v, CoreExec.v) with scripted, re-entrant callbacks. PROVED: the one-step theorems of the property file, for every behaviour of user callbacks. NOT PROVED (decided per run by the differential check and the trace monitors only): statements over whole histories. Out of the model: kqueue/uring plugins, FUSE, dlopen modules, task threads, thresholds firing, real time.' + NOTE_EXTRA.get(_p, ''),
-        technique=('Coq proof (global invariant through the callback knot + one-step lemmas + guard table regenerated from the C source) + extracted-model differential testing with trace monitors' if _p in ('C01', 'C15', 'C16', 'C17', 'C18') else 'Coq proof of one-step lemmas + extracted-model differential testing with trace monitors (history-level clauses not proved)'),
+        technique=('Coq proof (global invariant through the callback knot + one-step lemmas + guard table regenerated from the C source) + extracted-model differential testing with trace monitors' if _p in ('C01', 'C03', 'C04', 'C09', 'C15', 'C16', 'C17', 'C18') else 'Coq proof (whole-function theorems of one send / one stop / the loop + one-step lemmas) + extracted-model differential testing with trace monitors' if _p in ('C02', 'C08', 'C19', 'C20', 'C07') else 'Coq proof of one-step lemmas + extracted-model differential testing with trace monitors (history-level clauses not proved)'),
         design='7/' + _p)
 
 def main():
